@@ -2,13 +2,15 @@
    Model: Model/PermAlign.v (plan on Z with Python range semantics, greedy assignment, greedy chain,
    DHTV loop); proofs: Proofs/PermAlignPlan.v, PermAlignAssign.v, PermAlignLoop.v, PermAlign.v.
    Proved: plan coverage for all configurations; the greedy loop follows a dominating matching;
-   net-reordering invariants; restoration / identity for every permutation field GIVEN that the
-   adjacent-bin (resp. bin-vs-centroid) score matrices of the consistent reference are diagonally
-   dominant in the row-or-column sense.  NOT proved here (explored by the harness on every run):
-   that the stated signal domain (pairwise cosine <= 0.1, jitter <= 10 %) implies this dominance, and
-   the DHTV majority/overlap clause -- hence the suffix _partial on the two restoration theorems. *)
-From Coq Require Import ZArith List Arith Bool Permutation.
-From PB Require Import Ops Model.PermAlign Proofs.PermAlignAssign Proofs.PermAlignPlan Proofs.PermAlignLoop Proofs.PermAlign.
+   net-reordering invariants; on the stated signal domain (non-negative patterns, pairwise cosine <= c,
+   multiplicative jitter <= d) the adjacent-bin score matrices are diagonally dominant for all three
+   metrics, hence the GREEDY aligner restores a consistent order for every permutation field, every
+   F, T, K (C16_greedy_restores_on_domain); identity on consistent masks.
+   NOT proved (explored by the harness on every run): the DHTV clause (>= 70 % first-segment majority
+   and >= 2/3 overlap => consistent order); DHTV identity is proved GIVEN dominance of every bin against
+   its segment centroid -- hence the suffix _partial there. *)
+From Coq Require Import Reals Lra ZArith List Arith Bool Permutation.
+From PB Require Import Ops CLin Model.PermAlign Proofs.PermAlignAssign Proofs.PermAlignPlan Proofs.PermAlignLoop Proofs.PermAlignOracle Proofs.PermAlignJitter Proofs.PermAlign.
 Import ListNotations.
 Open Scope nat_scope.
 
@@ -95,9 +97,9 @@ Theorem C16_greedy_chain_net_reordering (m : metric) (K Tn : nat) (b0 : @bin T) 
 Proof. exact (greedy_chain_net_reordering P tiny m K Tn b0 rest f). Qed.
 
 (* greedy aligner restores a consistent order for EVERY per-frequency permutation field (p0 :: ps),
-   every F, T, K, given dominance of the adjacent-bin score matrices of the consistent reference;
-   _partial: the implication "cosine <= 0.1, jitter <= 10 % => dominance" is not proved *)
-Theorem C16_greedy_restores_on_domain_partial (m : metric) (K Tn : nat) (r0 : @bin T) (rs : list (@bin T))
+   every F, T, K, given dominance of the adjacent-bin score matrices of the consistent reference
+   (any ordered carrier; the signal-domain instance over the reals is C16_greedy_restores_on_domain) *)
+Theorem C16_greedy_chain_restores (m : metric) (K Tn : nat) (r0 : @bin T) (rs : list (@bin T))
     (p0 : list nat) (ps : list (list nat)) :
   Permutation p0 (seq 0 K) -> Forall2 (fun p (_ : @bin T) => Permutation p (seq 0 K)) ps rs ->
   adj_dominant P tiny m K Tn r0 rs ->
@@ -128,13 +130,76 @@ Print Assumptions C16_diag_dominant_identity.
 Print Assumptions C16_permuted_dominant_recovered.
 Print Assumptions C16_dhtv_net_reordering.
 Print Assumptions C16_greedy_chain_net_reordering.
-Print Assumptions C16_greedy_restores_on_domain_partial.
+Print Assumptions C16_greedy_chain_restores.
 Print Assumptions C16_consistent_mask_identity_greedy.
 Print Assumptions C16_consistent_mask_identity_dhtv_partial.
+
+(* ---- the signal domain: jittered copies of nearly orthogonal non-negative patterns ----
+   ip Tn u v = sum_t u t * v t;  jittered Tn d a x : 0 <= a t and (1-d) a t <= x t <= (1+d) a t;
+   cos_le Tn c a b : <a,b>^2 <= c^2 <a,a> <b,b>  (pairwise cosine <= c, no square roots).
+   x k / y k: the class-k rows of two adjacent bins. *)
+Theorem C16_jitter_dominance_multiply (Tn : nat) (c d : R) (K : nat) (a x y : nat -> nat -> R) :
+  (0 <= c)%R -> (0 <= d < 1)%R ->
+  (forall k, k < K -> jittered Tn d (a k) (x k)) -> (forall k, k < K -> jittered Tn d (a k) (y k)) ->
+  (forall k, k < K -> (0 < ip Tn (a k) (a k))%R) ->
+  (forall i j, i < K -> j < K -> i <> j -> cos_le Tn c (a i) (a j)) ->
+  (c * ((1 + d) * (1 + d)) < (1 - d) * (1 - d))%R ->
+  forall i j, i < K -> j < K -> j <> i ->
+    let D := fun i j => pair_multiply RO Tn (y j) (x i) in
+    oltb RO (D i j) (D i i) = true \/ oltb RO (D i j) (D j j) = true.
+Proof. exact (fun Hc Hd => jitter_dominance_multiply Tn c d Hc Hd K a x y). Qed.
+Print Assumptions C16_jitter_dominance_multiply.
+Theorem C16_jitter_dominance_euclid (Tn : nat) (c d : R) (K : nat) (a x y : nat -> nat -> R) :
+  (0 <= c)%R -> (0 <= d < 1)%R ->
+  (forall k, k < K -> jittered Tn d (a k) (x k)) -> (forall k, k < K -> jittered Tn d (a k) (y k)) ->
+  (forall k, k < K -> (0 < ip Tn (a k) (a k))%R) ->
+  (forall i j, i < K -> j < K -> i <> j -> cos_le Tn c (a i) (a j)) ->
+  (4 * (d * d) < (1 - d) * (1 - d) - c * ((1 + d) * (1 + d)))%R ->
+  forall i j, i < K -> j < K -> j <> i ->
+    let D := fun i j => pair_euclid RO Tn (y j) (x i) in
+    oltb RO (D i j) (D i i) = true \/ oltb RO (D i j) (D j j) = true.
+Proof. exact (fun Hc Hd => jitter_dominance_euclid Tn c d Hc Hd K a x y). Qed.
+Print Assumptions C16_jitter_dominance_euclid.
+Theorem C16_jitter_dominance_cos (Tn : nat) (c d : R) (K : nat) (a x y : nat -> nat -> R) (tiny : R) :
+  (0 <= c)%R -> (0 <= d < 1)%R ->
+  (forall k, k < K -> jittered Tn d (a k) (x k)) -> (forall k, k < K -> jittered Tn d (a k) (y k)) ->
+  (forall k, k < K -> (0 < ip Tn (a k) (a k))%R) ->
+  (forall i j, i < K -> j < K -> i <> j -> cos_le Tn c (a i) (a j)) ->
+  (forall k, k < K -> (tiny <= (1 - d) * sqrt (ip Tn (a k) (a k)))%R) ->
+  (c * ((1 + d) * (1 + d) * (1 + d)) < (1 - d) * (1 - d) * (1 - d))%R ->
+  forall i j, i < K -> j < K -> j <> i ->
+    let D := fun i j => pair_cos RO Tn tiny (y j) (x i) in
+    oltb RO (D i j) (D i i) = true \/ oltb RO (D i j) (D j j) = true.
+Proof. exact (fun Hc Hd Hx Hy Hpos Hcos => jitter_dominance_cos Tn c d Hc Hd K a x y Hx Hy Hpos Hcos tiny). Qed.
+Print Assumptions C16_jitter_dominance_cos.
+
+(* the greedy aligner's clause on the stated domain: every bin of the reference (r0 :: rs) holds
+   jittered copies of the K patterns; the mask is the reference with class order (p0 :: ps)[f] in bin
+   f, ANY permutation field; then after alignment every bin carries the order of bin 0.
+   metric_margin: multiply c(1+d)^2 < (1-d)^2; euclidean 4d^2 < (1-d)^2 - c(1+d)^2;
+   cos c(1+d)^3 < (1-d)^3 and tiny <= (1-d)|a_k| *)
+Theorem C16_greedy_restores_on_domain (tiny : R) (K Tn : nat) (c d : R) (a : nat -> nat -> R) (m : metric)
+    (r0 : @bin R) (rs : list (@bin R)) (p0 : list nat) (ps : list (list nat)) :
+  (0 <= c)%R -> (0 <= d < 1)%R ->
+  (forall k, k < K -> (0 < ip Tn (a k) (a k))%R) ->
+  (forall i j, i < K -> j < K -> i <> j -> cos_le Tn c (a i) (a j)) ->
+  metric_margin tiny K Tn c d a m ->
+  Forall (fun r => forall k, k < K -> jittered Tn d (a k) (rowfn RO (nth k r []))) (r0 :: rs) ->
+  Permutation p0 (seq 0 K) -> Forall2 (fun p (_ : @bin R) => Permutation p (seq 0 K)) ps rs ->
+  let mask := apply_bins (p0 :: ps) (r0 :: rs) in
+  Forall2 (fun M p => permute 0 M p = p0) (greedy_chain RO tiny m K Tn mask) (p0 :: ps) /\
+  apply_bins (greedy_chain RO tiny m K Tn mask) mask = map (permute [] p0) (r0 :: rs).
+Proof. exact (fun Hc Hd Hpos Hcos => greedy_restores_on_domain tiny K Tn c d a Hc Hd Hpos Hcos m r0 rs p0 ps). Qed.
+Print Assumptions C16_greedy_restores_on_domain.
 
 (* non-vacuity: the stft-512 defaults meet the plan hypotheses; a strictly diagonally dominant
    integer matrix with permuted columns meets the matching hypothesis *)
 Example C16_hypotheses_satisfiable :
   ((0 <= 70)%Z /\ (1 <= 20 <= 100)%Z /\ (70 + 100 <= stft_bins 512)%Z) /\
-  greedy_assign Z.ltb 3 (fun i j => nth j (nth i [[1; 9; 2]; [8; 0; 1]; [2; 3; 7]] []) 0)%Z = [1; 0; 2].
-Proof. split. vm_compute. repeat split; discriminate. vm_compute. reflexivity. Qed.
+  greedy_assign Z.ltb 3 (fun i j => nth j (nth i [[1; 9; 2]; [8; 0; 1]; [2; 3; 7]] []) 0)%Z = [1; 0; 2] /\
+  (* the margins at the property's c = d = 0.1 *)
+  (let c := (/ 10)%R in let d := (/ 10)%R in
+   (c * ((1 + d) * (1 + d)) < (1 - d) * (1 - d))%R /\
+   (4 * (d * d) < (1 - d) * (1 - d) - c * ((1 + d) * (1 + d)))%R /\
+   (c * ((1 + d) * (1 + d) * (1 + d)) < (1 - d) * (1 - d) * (1 - d))%R).
+Proof. split. vm_compute. repeat split; discriminate. split. vm_compute. reflexivity. cbv zeta. lra. Qed.
